@@ -446,7 +446,7 @@ def c05_families(tier, seed, ids=None):
             pa, ea = sourced(sa, TYPED_ATOMS[a], "ga")
             pb_, eb = sourced(sb, TYPED_ATOMS[b], "gb")
             e = bin_(op, ea, eb)
-            items = [IDF] + pa + pb_ + [e, assign("lf", fn([], block([assign("la", ea), assign("lb", eb) if TYPED_ATOMS[b] != N("nn") else assign("lb", I(1)), bin_(op, N("la"), N("lb") if TYPED_ATOMS[b] != N("nn") else eb)]))), call("lf"),
+            items = [IDF] + pa + pb_ + [e, bin_("==", e, I(0)), bin_("+", I(1), bin_("*", e, I(2))), un("!", e), assign("lf", fn([], block([assign("la", ea), assign("lb", eb) if TYPED_ATOMS[b] != N("nn") else assign("lb", I(1)), bin_(op, N("la"), N("lb") if TYPED_ATOMS[b] != N("nn") else eb)]))), call("lf"),
                                         assign("cf", fn([], block([assign("la", ea), assign("h", fn([], bin_(op, N("la"), eb))), call("h")]))), call("cf"), I(1)]
             ss.append(mk(ids, items, {"op": op, "a": a, "b": b, "src": [sa, sb]}))
     out.append(("binary operator x type pair x operand source", ss, ("nocrash",)))
@@ -720,7 +720,7 @@ def c10_families(tier, seed, ids=None):
     ops = c10_ops()
     ss = []
     if tier == "quick":
-        seqs = [[rnd.choice(ops) for _ in range(rnd.randint(2, 5))] for _ in range(250)]
+        seqs = [[rnd.choice(ops) for _ in range(rnd.randint(3, 7))] for _ in range(1500)]
     else:
         seqs = [[a, b] for a in ops for b in ops if hash((a[0], b[0], seed)) % 6 == 0]
         seqs += [[rnd.choice(ops) for _ in range(rnd.randint(3, 12))] for _ in range(6000)]
